@@ -397,6 +397,20 @@ func (e *Expression) UnmarshalJSON(data []byte) (err error) {
 		if err != nil {
 			return err
 		}
+		// numbers arrive as float64, which cannot hold every integer: take integer bounds from the raw text
+		var rawBounds struct {
+			Min json.RawMessage `json:"min"`
+			Max json.RawMessage `json:"max"`
+		}
+		if json.Unmarshal(c.Right, &rawBounds) == nil {
+			if i, convErr := strconv.Atoi(string(bytes.TrimSpace(rawBounds.Min))); convErr == nil {
+				boundary.Min = i
+			}
+			if i, convErr := strconv.Atoi(string(bytes.TrimSpace(rawBounds.Max))); convErr == nil {
+				boundary.Max = i
+			}
+		}
+
 		if !IsExpr(boundary.Min) {
 			boundary.Min = literalToExpr(toIntIfNecessary(boundary.Min))
 		}
